@@ -16,6 +16,8 @@ pub enum RingSel {
     Gauss,
     Eisen,
     Q,
+    /// Z[H] = Poly<'H', Z>: a non-PID with units +-1 (entries a + bH)
+    ZH,
 }
 
 pub struct Snf {
@@ -30,7 +32,31 @@ pub struct Snf {
 }
 
 impl Snf {
+    /// the path that i64 / i128 / BigInt / Gauss / Eisenstein matrices really take (LLL-HNF preprocessing first),
+    /// reached for the symbolic scalar through the cfg(yui_verif) hook SnfCalc::process_with_lll
+    fn check_lll<I, R>(&self, xs: &[I])
+    where
+        I: VInt,
+        for<'x> &'x I: VIntOps<I>,
+        R: VRing<I> + yui_matrix::dense::lll::LLLRing,
+        for<'x> &'x R: yui_matrix::dense::lll::LLLRingOps<R>,
+    {
+        self.check_with::<I, R>(xs, &|a: &Mat<R>, flags| {
+            let mut calc = SnfCalc::new(a.clone(), flags);
+            calc.process_with_lll();
+            calc.result()
+        })
+    }
     fn check<I, R>(&self, xs: &[I])
+    where
+        I: VInt,
+        for<'x> &'x I: VIntOps<I>,
+        R: VRing<I> + EucRing,
+        for<'x> &'x R: EucRingOps<R>,
+    {
+        self.check_with::<I, R>(xs, &|a: &Mat<R>, flags| snf(a, flags))
+    }
+    fn check_with<I, R>(&self, xs: &[I], run: &dyn Fn(&Mat<R>, [bool; 4]) -> yui_matrix::dense::snf::SnfResult<R>)
     where
         I: VInt,
         for<'x> &'x I: VIntOps<I>,
@@ -44,7 +70,7 @@ impl Snf {
         } else {
             build_mat::<I, R>(m, n, xs)
         };
-        let res = snf(&a, self.flags);
+        let res = run(&a, self.flags);
         let d = res.result().clone();
         let ag = mat_to_grid(&a);
         let dg = mat_to_grid(&d);
@@ -111,7 +137,7 @@ impl Harness for Snf {
             if self.lll_path { "/lll" } else if self.diag { "/diagonal-input" } else { "" })
     }
     fn functions(&self) -> Vec<&'static str> {
-        vec!["yui_matrix::dense::snf::snf", "SnfCalc::{process,eliminate_all,eliminate_step,eliminate_at,eliminate_row,eliminate_col,diag_normalize,diag_normalize_step,gcdx}",
+        vec!["yui_matrix::dense::snf::snf", "SnfCalc::process_with_lll -> preprocess_lll -> lll_hnf_in_place (configs marked /lll, hook H1)", "SnfCalc::{process,eliminate_all,eliminate_step,eliminate_at,eliminate_row,eliminate_col,diag_normalize,diag_normalize_step,gcdx}",
              "yui::EucRing::{gcdx,divides} (generic)", "Mat::{left_elementary,right_elementary,swap_rows,swap_cols,mul_row,mul_col}"]
     }
     fn inputs(&self) -> Vec<InputSpec> {
@@ -133,11 +159,20 @@ impl Harness for Snf {
     where
         for<'x> &'x I: VIntOps<I>,
     {
+        if self.lll_path {
+            return match self.ring {
+                RingSel::Z => self.check_lll::<I, I>(xs),
+                RingSel::Gauss => self.check_lll::<I, GaussInt<I>>(xs),
+                RingSel::Eisen => self.check_lll::<I, EisenInt<I>>(xs),
+                _ => unreachable!(),
+            };
+        }
         match self.ring {
             RingSel::Z => self.check::<I, I>(xs),
             RingSel::Gauss => self.check::<I, GaussInt<I>>(xs),
             RingSel::Eisen => self.check::<I, EisenInt<I>>(xs),
             RingSel::Q => self.check::<I, yui::Ratio<I>>(xs),
+            RingSel::ZH => unreachable!(),
         }
     }
 }
@@ -159,6 +194,11 @@ pub fn configs(tier: crate::registry::Tier, _seed: u64) -> Vec<crate::registry::
     for (ring, m, n, b, cls, secs) in [(RingSel::Gauss, 1, 1, 2, 200, 30.0), (RingSel::Gauss, 1, 2, 1, 300, 60.0), (RingSel::Eisen, 1, 1, 2, 200, 30.0), (RingSel::Eisen, 2, 1, 1, 300, 60.0)] {
         v.push(entry(Snf { ring, m, n, b, flags: all, lll_path: false, diag: false }, cls, secs));
     }
+    // the LLL-preprocessed path (hook H1)
+    for (ring, m, n, b, cls, secs) in [(RingSel::Z, 2, 2, 2, 600, 120.0), (RingSel::Z, 2, 3, 1, 600, 90.0), (RingSel::Z, 3, 2, 1, 600, 90.0), (RingSel::Z, 1, 2, 4, 200, 30.0), (RingSel::Gauss, 2, 1, 1, 300, 60.0), (RingSel::Eisen, 1, 2, 1, 300, 60.0)] {
+        v.push(entry(Snf { ring, m, n, b, flags: all, lll_path: true, diag: false }, cls, secs));
+    }
+    v.push(entry(Snf { ring: RingSel::Z, m: 2, n: 2, b: 1, flags: [false, true, true, false], lll_path: true, diag: false }, 300, 40.0));
     // diagonal inputs: the divisibility-chain normalisation on its own (3 or 4 symbolic entries, wider box)
     v.push(entry(Snf { ring: RingSel::Z, m: 3, n: 3, b: 6, flags: all, lll_path: false, diag: true }, 3000, 150.0));
     v.push(entry(Snf { ring: RingSel::Z, m: 2, n: 3, b: 8, flags: all, lll_path: false, diag: true }, 1000, 60.0));
